@@ -36,11 +36,12 @@ type c15Req struct {
 }
 
 type c15Result struct {
-	ID      string   `json:"id"`
-	Reqs    []c15Req `json:"reqs"`
-	Other   []string `json:"other"` // methods of nonce-less messages the middlewares saw
-	NotifMW int      `json:"notif_mw"`
-	Broken  string   `json:"broken,omitempty"`
+	HandshakeErr string   `json:"handshake_err,omitempty"`
+	ID           string   `json:"id"`
+	Reqs         []c15Req `json:"reqs"`
+	Other        []string `json:"other"` // methods of nonce-less messages the middlewares saw
+	NotifMW      int      `json:"notif_mw"`
+	Broken       string   `json:"broken,omitempty"`
 }
 
 type c15Rec struct {
@@ -132,6 +133,11 @@ func c15Run(sc c15Scenario) (res c15Result) {
 		}
 		wmu.Unlock()
 		rec.add(n, "H", ctx, w)
+		if cs := mcp.ClientSessionFromContext(ctx); cs != nil && w[n] != "" && cs.GetID() != w[n] {
+			rec.mu.Lock()
+			rec.ctxBad[n] = fmt.Sprintf("handler was given client session %q, want %q", cs.GetID(), w[n])
+			rec.mu.Unlock()
+		}
 		return mcp.NewTextResult("H:" + n + ":" + t), nil
 	}
 	tool := mcp.NewTool("echo", mcp.WithString("nonce"), mcp.WithString("trail"))
@@ -224,20 +230,41 @@ func c15Run(sc c15Scenario) (res c15Result) {
 		ts := httptest.NewServer(srv.Handler())
 		defer func() { ts.CloseClientConnections(); ts.Close() }()
 		url := ts.URL + "/mcp"
-		sid, err := peer.Handshake(ctx, url, nil)
+		sid0, err := peer.Handshake(ctx, url, nil)
 		if err != nil {
 			res.Broken = "handshake: " + err.Error()
 			return
 		}
+		sid1, err := peer.Handshake(ctx, url, nil)
+		if err != nil {
+			// the first session could shake hands, the second cannot: is that the chain's doing?
+			plain := mcp.NewServer("verif", "1.0", mcp.WithServerPath("/mcp"), mcp.WithServerLogger(silentLogger{}))
+			pts := httptest.NewServer(plain.Handler())
+			_, e1 := peer.Handshake(ctx, pts.URL+"/mcp", nil)
+			_, e2 := peer.Handshake(ctx, pts.URL+"/mcp", nil)
+			pts.Close()
+			if e1 == nil && e2 == nil && len(mws) > 0 {
+				res.HandshakeErr = err.Error()
+				return
+			}
+			res.Broken = "handshake: " + err.Error()
+			return
+		}
+		// a first request of the OTHER session, so that per-server caches are warm with a foreign session
+		peer.PostJSON(ctx, url, map[string]string{"Mcp-Session-Id": sid1}, []byte(`{"jsonrpc":"2.0","id":"warm","method":"tools/list"}`), false)
 		var wg sync.WaitGroup
 		for k := 0; k < sc.Parallel; k++ {
 			nonce := fmt.Sprintf("n-%s-%d", sc.ID, k)
+			sid := sid0
+			if k%2 == 1 {
+				sid = sid1
+			}
 			wmu.Lock()
 			want[nonce] = sid
 			wmu.Unlock()
 			res.Reqs[k].Nonce = nonce
 			wg.Add(1)
-			go func(k int, nonce string) {
+			go func(k int, nonce, sid string) {
 				defer wg.Done()
 				r := peer.PostJSON(ctx, url, map[string]string{"Mcp-Session-Id": sid, "X-Verif-Token": nonce}, mkBody(nonce, 100+k), sc.Transport == "sse")
 				res.Reqs[k].Status = r.Status
@@ -251,11 +278,11 @@ func c15Run(sc c15Scenario) (res c15Result) {
 				} else if json.Valid(r.Body) {
 					res.Reqs[k].Response = json.RawMessage(r.Body)
 				}
-			}(k, nonce)
+			}(k, nonce, sid)
 		}
 		wg.Wait()
 		// a notification must not travel through the chain
-		peer.PostJSON(ctx, url, map[string]string{"Mcp-Session-Id": sid}, []byte(`{"jsonrpc":"2.0","method":"notifications/roots/list_changed"}`), false)
+		peer.PostJSON(ctx, url, map[string]string{"Mcp-Session-Id": sid0}, []byte(`{"jsonrpc":"2.0","method":"notifications/roots/list_changed"}`), false)
 	}
 	rec.mu.Lock()
 	defer rec.mu.Unlock()
